@@ -191,6 +191,11 @@ func (cg *CallGraph) makeSite(f *ssa.Function, ci ssa.CallInstruction) *Site {
 		}
 		return s
 	}
+	// call through a package-level function variable of a dependency (sdk.ZeroInt, sdkerrors.Wrapf): a leaf
+	if g := funcVarOf(c.Value); g != nil && g.Pkg != nil && !strings.HasPrefix(g.Pkg.Pkg.Path(), modPath) {
+		s.Method = g.Name()
+		return s
+	}
 	// dynamic call through a function value: candidates are module functions whose value is taken, same signature
 	sig := c.Signature()
 	// a closure value built in this very function?
